@@ -619,7 +619,25 @@ impl Features {
     }
 }
 
+/// Positions (byte offsets into the rendered text) at which C06's damage operators apply.
+#[derive(Clone, Debug)]
+pub enum Site {
+    Quoted { open: usize, close: usize, double: bool, implicit_block_key: bool, single_line: bool },
+    Closer { pos: usize },
+    /// first char of an entry line of a block collection (before its indentation)
+    EntryLine { line_start: usize, indent: usize, first: bool, parent: isize },
+    /// a continuation line of a multi-line flow collection; `block_n` = indentation of the enclosing block construct
+    FlowContLine { line_start: usize, indent: usize, block_n: isize },
+    /// a single-line plain scalar without properties in entry / value position of a block collection
+    PlainValue { start: usize, len: usize },
+    /// a single-line scalar without properties used as implicit key of a block mapping
+    ImplicitKey { start: usize, end: usize, quoted: bool },
+    DocEndMarker { pos_after: usize },
+}
+
 pub struct Renderer<'a> {
+    pub sites: Vec<Site>,
+    in_implicit_block_key: bool,
     pub out: String,
     ch: Choices<'a>,
     pub feat: Features,
@@ -634,7 +652,7 @@ pub struct Renderer<'a> {
 
 impl<'a> Renderer<'a> {
     pub fn new(layout: &'a [u8], rich: bool) -> Self {
-        Renderer { out: String::new(), ch: Choices::new(layout), feat: Features::default(), after_block_scalar: false, rich, bare_question: false }
+        Renderer { sites: vec![], in_implicit_block_key: false, out: String::new(), ch: Choices::new(layout), feat: Features::default(), after_block_scalar: false, rich, bare_question: false }
     }
 
     fn spaces(&mut self, n: usize) {
@@ -740,6 +758,7 @@ impl<'a> Renderer<'a> {
             }
             self.out.push('\n');
             let extra = self.ch.pick(3);
+            self.sites.push(Site::FlowContLine { line_start: self.out.len(), indent: cont + extra, block_n: cont as isize - 1 });
             self.spaces(cont + extra);
             return;
         }
@@ -753,6 +772,7 @@ impl<'a> Renderer<'a> {
             Style::Double => "\"",
             _ => "",
         };
+        let open = self.out.len();
         self.out.push_str(q);
         for (i, l) in lines.iter().enumerate() {
             if i > 0 {
@@ -761,6 +781,9 @@ impl<'a> Renderer<'a> {
                 self.spaces(cont + extra);
             }
             self.out.push_str(l);
+        }
+        if !q.is_empty() {
+            self.sites.push(Site::Quoted { open, close: self.out.len(), double: style == Style::Double, implicit_block_key: self.in_implicit_block_key, single_line: lines.len() == 1 });
         }
         self.out.push_str(q);
     }
@@ -805,6 +828,7 @@ impl<'a> Renderer<'a> {
                     self.feat.trailing_comma += 1;
                     self.fsep(cont, single_line, false);
                 }
+                self.sites.push(Site::Closer { pos: self.out.len() });
                 self.out.push(']');
                 let _ = in_flow;
                 false
@@ -829,6 +853,7 @@ impl<'a> Renderer<'a> {
                     self.feat.trailing_comma += 1;
                     self.fsep(cont, single_line, false);
                 }
+                self.sites.push(Site::Closer { pos: self.out.len() });
                 self.out.push('}');
                 false
             }
@@ -1017,13 +1042,19 @@ impl<'a> Renderer<'a> {
                     let extra = self.ch.pick(3);
                     let ind = min_child + extra;
                     self.spaces(ind);
-                    self.flow_node(node, ind.max(min_child), false, false);
+                    self.flow_node(node, min_child, false, false);
                 } else {
                     let start_col_known = intro != Intro::BareRoot;
                     if start_col_known {
                         self.sep();
                     }
+                    let vstart = self.out.len();
                     self.flow_node(node, min_child, false, false);
+                    if let Kind::Scalar { style: Style::Plain, lines, .. } = &node.kind {
+                        if lines.len() == 1 && !node.has_props() && matches!(intro, Intro::Dash(_) | Intro::KeyColon(_) | Intro::ExplicitColon(_)) {
+                            self.sites.push(Site::PlainValue { start: vstart, len: self.out.len() - vstart });
+                        }
+                    }
                 }
                 self.eol();
             }
@@ -1045,7 +1076,7 @@ impl<'a> Renderer<'a> {
             let m = if self.rich { 1 + self.ch.pick(3) } else { 1 };
             self.spaces(m);
             let i = col + 1 + m;
-            self.entries(i, items, pairs, true);
+            self.entries(i, items, pairs, true, n);
             return;
         }
         // non-compact: optional properties on the introducer's line, break, then the entries
@@ -1064,7 +1095,7 @@ impl<'a> Renderer<'a> {
                 self.feat.props_own_line += 1;
             }
             let i = if self.rich && self.ch.pick(8) == 7 { 1 + self.ch.pick(3) } else { 0 };
-            self.entries(i, items, pairs, false);
+            self.entries(i, items, pairs, false, n);
             return;
         }
         if node.has_props() {
@@ -1084,22 +1115,23 @@ impl<'a> Renderer<'a> {
         } else {
             self.eol();
         }
-        self.entries(i, items, pairs, false);
+        self.entries(i, items, pairs, false, n);
     }
 
     /// entries of a block collection at indentation `i`; `inline_first`: the first entry continues
     /// the current line (compact form)
-    fn entries(&mut self, i: usize, items: Option<&Vec<Node>>, pairs: Option<&Vec<(Node, Node)>>, inline_first: bool) {
+    fn entries(&mut self, i: usize, items: Option<&Vec<Node>>, pairs: Option<&Vec<(Node, Node)>>, inline_first: bool, parent: isize) {
         self.bare_question = false;
-        self.entries_inner(i, items, pairs, inline_first);
+        self.entries_inner(i, items, pairs, inline_first, parent);
         self.bare_question = false;
     }
 
-    fn entries_inner(&mut self, i: usize, items: Option<&Vec<Node>>, pairs: Option<&Vec<(Node, Node)>>, inline_first: bool) {
+    fn entries_inner(&mut self, i: usize, items: Option<&Vec<Node>>, pairs: Option<&Vec<(Node, Node)>>, inline_first: bool, parent: isize) {
         if let Some(items) = items {
             for (k, it) in items.iter().enumerate() {
                 if !(k == 0 && inline_first) {
                     self.interline();
+                    self.sites.push(Site::EntryLine { line_start: self.out.len(), indent: i, first: k == 0, parent });
                     self.spaces(i);
                 }
                 self.out.push('-');
@@ -1110,6 +1142,7 @@ impl<'a> Renderer<'a> {
             for (k, (key, val)) in pairs.iter().enumerate() {
                 if !(k == 0 && inline_first) {
                     self.interline();
+                    self.sites.push(Site::EntryLine { line_start: self.out.len(), indent: i, first: k == 0, parent });
                     self.spaces(i);
                 }
                 self.block_pair(key, val, i);
@@ -1146,7 +1179,15 @@ impl<'a> Renderer<'a> {
             self.feat.empty_key += 1;
         } else {
             self.after_block_scalar = false;
+            let kstart = self.out.len();
+            self.in_implicit_block_key = true;
             self.flow_node(key, i + 1, true, false);
+            self.in_implicit_block_key = false;
+            if let Kind::Scalar { style, .. } = &key.kind {
+                if !key.has_props() {
+                    self.sites.push(Site::ImplicitKey { start: kstart, end: self.out.len(), quoted: *style != Style::Plain });
+                }
+            }
             let needs_blank = matches!(key.kind, Kind::Alias(_)) || (matches!(key.kind, Kind::Omitted) && key.has_props());
             if matches!(key.kind, Kind::Alias(_)) {
                 self.feat.alias_key += 1;
@@ -1198,6 +1239,7 @@ impl<'a> Renderer<'a> {
             }
             if d.explicit_end {
                 self.out.push_str("...");
+                self.sites.push(Site::DocEndMarker { pos_after: self.out.len() });
                 self.after_block_scalar = false;
                 self.eol();
             }
@@ -1209,4 +1251,10 @@ pub fn render(s: &Stream, layout: &[u8], rich: bool) -> (String, Features) {
     let mut r = Renderer::new(layout, rich);
     r.stream(s);
     (r.out, r.feat)
+}
+
+pub fn render_with_sites(s: &Stream, layout: &[u8], rich: bool) -> (String, Vec<Site>) {
+    let mut r = Renderer::new(layout, rich);
+    r.stream(s);
+    (r.out, r.sites)
 }
